@@ -7,6 +7,9 @@ from lib import *
 from batches import core
 
 TRUSTED = list(core.TRUSTED)
+# Operation::parse: ~80 clauses x ~180 match arms; the default rlimit (10) is not enough when an obligation fails
+VERUS_ARGS = ['--rlimit', '40']
+RETRY_RLIMIT = 120
 
 # operand kinds: u1 s1 u2 s2 u4 s4 u8 s8 addr word uleb sleb ; blk(k) = block whose length is operand k ; v2addr = address-size when version 2 else word
 # pattern: Rust pattern on `op` binding fields f0..; constraints: spec expression over operand values o0.. and fields
@@ -53,9 +56,9 @@ OPS = [
     (['DW_OP_lt'], [], 'Operation::Lt', 'true'),
     (['DW_OP_ne'], [], 'Operation::Ne', 'true'),
     (['DW_OP_skip'], ['s2'], 'Operation::Skip { target }', 'target == o0'),
-    (['lit'], [], 'Operation::UnsignedConstant { value }', 'value == b[0] - 0x30'),
-    (['reg'], [], 'Operation::Register { register }', 'register.0 == b[0] - 0x50'),
-    (['breg'], ['sleb'], 'Operation::RegisterOffset { register, offset, base_type }', 'register.0 == b[0] - 0x70 && offset == o0 && base_type.0.as_nat() == 0'),
+    (['lit'], [], 'Operation::UnsignedConstant { value }', 'value == b0.at(0) - 0x30'),
+    (['reg'], [], 'Operation::Register { register }', 'register.0 == b0.at(0) - 0x50'),
+    (['breg'], ['sleb'], 'Operation::RegisterOffset { register, offset, base_type }', 'register.0 == b0.at(0) - 0x70 && offset == o0 && base_type.0.as_nat() == 0'),
     (['DW_OP_regx'], ['uleb'], 'Operation::Register { register }', 'register.0 == o0'),
     (['DW_OP_fbreg'], ['sleb'], 'Operation::FrameOffset { offset }', 'offset == o0'),
     (['DW_OP_bregx'], ['uleb', 'sleb'], 'Operation::RegisterOffset { register, offset, base_type }', 'register.0 == o0 && offset == o1 && base_type.0.as_nat() == 0'),
@@ -94,13 +97,13 @@ def opcode_cond(names):
     cs = []
     for n in names:
         if n == 'lit':
-            cs.append('(0x30 <= b[0] <= 0x4f)')
+            cs.append('(0x30 <= b0.at(0) <= 0x4f)')
         elif n == 'reg':
-            cs.append('(0x50 <= b[0] <= 0x6f)')
+            cs.append('(0x50 <= b0.at(0) <= 0x6f)')
         elif n == 'breg':
-            cs.append('(0x70 <= b[0] <= 0x8f)')
+            cs.append('(0x70 <= b0.at(0) <= 0x8f)')
         else:
-            cs.append(f'b[0] == constants::{n}.0')
+            cs.append(f'b0.at(0) == constants::{n}.0')
     return '(' + ' || '.join(cs) + ')'
 
 
@@ -111,22 +114,26 @@ def operand_lets(kinds):
         p = f'p{i}'
         if k in FIXED:
             n = FIXED[k]
-            if k[0] == 'u':
-                s += f'let o{i} = u_at(b, {p}, {n}, be) as int; '
+            if k == 'u1':
+                s += f'let o{i} = b0.at({p}) as int; '
+            elif k == 's1':
+                s += f'let o{i} = sext(b0.at({p}) as nat, 8); '
+            elif k[0] == 'u':
+                s += f'let o{i} = b0.u({p}, {n}) as int; '
             else:
-                s += f'let o{i} = s_at(b, {p}, {n}, be); '
+                s += f'let o{i} = b0.s({p}, {n}); '
             s += f'let p{i + 1} = {p} + {n}; '
         elif k == 'addr':
-            s += f'let o{i} = u_at(b, {p}, encoding.address_size as int, be) as int; let p{i + 1} = {p} + encoding.address_size as int; '
+            s += f'let o{i} = b0.u({p}, encoding.address_size as int) as int; let p{i + 1} = {p} + encoding.address_size as int; '
         elif k == 'word':
-            s += f'let o{i} = u_at(b, {p}, word_size(encoding.format) as int, be) as int; let p{i + 1} = {p} + word_size(encoding.format) as int; '
+            s += f'let o{i} = b0.u({p}, word_size(encoding.format) as int) as int; let p{i + 1} = {p} + word_size(encoding.format) as int; '
         elif k == 'v2addr':
             s += (f'let w{i} = if encoding.version == 2 {{ encoding.address_size as int }} else {{ word_size(encoding.format) as int }}; '
-                  f'let o{i} = u_at(b, {p}, w{i}, be) as int; let p{i + 1} = {p} + w{i}; ')
+                  f'let o{i} = b0.u({p}, w{i}) as int; let p{i + 1} = {p} + w{i}; ')
         elif k == 'uleb':
-            s += f'let o{i} = uleb_value(b.skip({p})) as int; let p{i + 1} = {p} + leb_len(b.skip({p})) as int; '
+            s += f'let o{i} = b0.uleb({p}) as int; let p{i + 1} = {p} + b0.leb_len({p}) as int; '
         elif k == 'sleb':
-            s += f'let o{i} = sleb_value(b.skip({p})); let p{i + 1} = {p} + leb_len(b.skip({p})) as int; '
+            s += f'let o{i} = b0.sleb({p}); let p{i + 1} = {p} + b0.leb_len({p}) as int; '
         elif k.startswith('blk'):
             j = int(k[3:])
             s += f'let o{i} = 0int; let p{i + 1} = {p} + o{j}; '
@@ -138,53 +145,46 @@ def parse_clauses():
     out = []
     for names, kinds, pat, cons in OPS:
         tag = names[0].replace('DW_OP_', '')
-        body = (f'({{ let b0 = old(bytes).rv(); let b = b0.bytes; let be = b0.be; {opcode_cond(names)} ==> ({{ {operand_lets(kinds)} '
-                f'op matches {pat} && ({cons}) && adv(b0, final(bytes).rv(), total as nat) }}) }})')
-        out.append(f'[C07:decode-{tag}]' + ('[C10:view]' if 'window' in cons else '') + f' res matches Ok(op) ==> old(bytes).rv().bytes.len() > 0 ==> {body}')
+        body = (f'({{ let b0 = old(bytes).rv(); {opcode_cond(names)} ==> ({{ {operand_lets(kinds)} '
+                f'(op matches {pat} && ({cons}) && adv(b0, final(bytes).rv(), total as nat)) }}) }})')
+        out.append(f'[C07:decode-{tag}]' + ('[C10:view]' if 'window' in cons else '') + f' res matches Ok(op) ==> {body}')
     # WebAssembly locations (4 sub-forms)
     for sub, kind, var in [(0, 'uleb', 'WasmLocal'), (1, 'uleb', 'WasmGlobal'), (2, 'uleb', 'WasmStack'), (3, 'u4', 'WasmGlobal')]:
-        val = 'uleb_value(b.skip(2)) as int' if kind == 'uleb' else 'u_at(b, 2, 4, be) as int'
-        size = 'leb_len(b.skip(2)) as int' if kind == 'uleb' else '4int'
-        out.append(f'[C07:decode-WASM_location-{sub}] res matches Ok(op) ==> old(bytes).rv().bytes.len() > 1 ==> ({{ let b0 = old(bytes).rv(); let b = b0.bytes; let be = b0.be; '
-                   f'b[0] == constants::DW_OP_WASM_location.0 && b[1] == {sub} ==> op matches Operation::{var} {{ index }} && index == {val} && adv(b0, final(bytes).rv(), (2 + {size}) as nat) }})')
-    out.append('[C07:decode-WASM_location-invalid] old(bytes).rv().bytes.len() > 1 && old(bytes).rv().bytes[0] == constants::DW_OP_WASM_location.0 && old(bytes).rv().bytes[1] > 3 ==> res is Err')
-    known = ' || '.join(opcode_cond(n) for n, _, _, _ in OPS) + ' || b[0] == constants::DW_OP_WASM_location.0'
-    out.append(f'[C07:decode-unknown-opcode] old(bytes).rv().bytes.len() > 0 ==> ({{ let b = old(bytes).rv().bytes; !({known}) ==> res is Err }})')
+        val = 'b0.uleb(2) as int' if kind == 'uleb' else 'b0.u(2, 4) as int'
+        size = 'b0.leb_len(2) as int' if kind == 'uleb' else '4int'
+        out.append(f'[C07:decode-WASM_location-{sub}] res matches Ok(op) ==> ({{ let b0 = old(bytes).rv(); '
+                   f'b0.at(0) == constants::DW_OP_WASM_location.0 && b0.at(1) == {sub} ==> (op matches Operation::{var} {{ index }} && index == {val} && adv(b0, final(bytes).rv(), (2 + {size}) as nat)) }})')
+    out.append('[C07:decode-WASM_location-invalid] old(bytes).rv().len > 1 && old(bytes).rv().at(0) == constants::DW_OP_WASM_location.0 && old(bytes).rv().at(1) > 3 ==> res is Err')
+    known = ' || '.join(opcode_cond(n) for n, _, _, _ in OPS) + ' || b0.at(0) == constants::DW_OP_WASM_location.0'
+    out.append(f'[C07:decode-unknown-opcode] old(bytes).rv().len > 0 ==> ({{ let b0 = old(bytes).rv(); !({known}) ==> res is Err }})')
     out.append('[C01:frame] within(old(bytes).rv(), final(bytes).rv())')
-    out.append('[C01:progress] res is Ok ==> final(bytes).rv().bytes.len() < old(bytes).rv().bytes.len()')
+    out.append('[C01:progress] res is Ok ==> final(bytes).rv().len < old(bytes).rv().len')
     return out
 
 
-OP_SPECS = '''
-pub open spec fn u_at(b: Seq<u8>, p: int, n: int, be: bool) -> nat { uint_of(b.subrange(p, p + n), be) }
-pub open spec fn s_at(b: Seq<u8>, p: int, n: int, be: bool) -> int { sext(u_at(b, p, n, be), (8 * n) as nat) }
-'''
+OP_SPECS = ''
 
 
 def populate(ctx, sk):
     op = Source('read/op.rs', ctx)
-    unit = Source('read/unit.rs', ctx)
-    sk.module('read::unit', 'use crate::read::reader::*;')
-    sk.add('read::unit', unit.item(r'^pub struct UnitOffset<').clean())
-    sk.mods['read']['uses'] += '\npub use self::unit::*;\npub use self::op::*;'
+    sk.mods['read']['uses'] += '\npub use self::op::*;'
     sk.module('read::op', '''use core::mem;
 use crate::common::{DebugAddrIndex, DebugInfoOffset, Encoding, Register, Format};
 use crate::constants;
 use crate::read::{Error, Reader, ReaderOffset, Result, UnitOffset};
-use crate::vspec::*;
-broadcast use crate::vspec::group_seq_views;''')
-    sk.add('read::op', OP_SPECS, label='op-specs')
+use crate::read::reader_clone;
+use crate::vspec::*;''')
     sk.add('read::op', op.item(r'^pub enum DieReference<').clean())
     sk.add('read::op', op.item(r'^pub enum Operation<R, Offset').clean(rejrec=['R', 'Offset']))
     gt = op.item(r'^fn generic_type<').clean()
     gt.splice('generic_type', ret='res', ensures=['res.0.as_nat() == 0'], owners=['C01', 'C07'])
     sk.add('read::op', gt)
-    cpc = op.item(r'^fn compute_pc<').clean()
+    cpc = op.item(r'^fn compute_pc<').custom('R-CLONE', 'bytecode.clone()', 'reader_clone(bytecode)').clean()
     cpc.splice('compute_pc', ret='res',
-               requires=['pc.rv().tracks ==> bytecode.rv().tracks && pc.rv().sec == bytecode.rv().sec && bytecode.rv().pos <= pc.rv().pos'],
+               requires=['[C07:pc-inside-bytecode] inside(bytecode.rv(), pc.rv())'],
                ensures=[
-                   '[C07:branch-target] pc.rv().tracks ==> ({ let t = (pc.rv().pos - bytecode.rv().pos) as int + offset as int; '
-                   '(0 <= t <= bytecode.rv().bytes.len() ==> (res matches Ok(r) && adv(bytecode.rv(), r.rv(), t as nat))) && (res is Ok ==> 0 <= t <= bytecode.rv().bytes.len()) })',
+                   '[C07:branch-target] bytecode.rv().len <= isize::MAX ==> ({ let t = (pc.rv().start - bytecode.rv().start) as int + offset as int; '
+                   '(0 <= t <= bytecode.rv().len ==> (res matches Ok(r) && adv(bytecode.rv(), r.rv(), t as nat))) && (res is Ok ==> 0 <= t <= bytecode.rv().len) })',
                    '[C07:branch-target-view] res matches Ok(r) ==> within(bytecode.rv(), r.rv())'],
                owners=['C01', 'C07'])
     sk.add('read::op', cpc)
@@ -196,6 +196,6 @@ broadcast use crate::vspec::group_seq_views;''')
 
 def build(ctx):
     sk = Skeleton(ctx, core.rd('prelude/crate.rs'))
-    core.populate(ctx, sk, dw_types=['DwOp', 'DwForm', 'DwAt', 'DwUt'])
+    core.populate(ctx, sk)
     populate(ctx, sk)
     return sk
